@@ -35,8 +35,10 @@ type MessageFuture struct {
 
 func NewMessageFuture(message RpcMessage) *MessageFuture {
 	return &MessageFuture{
-		ID:   message.ID,
-		Done: make(chan struct{}),
+		ID: message.ID,
+		// buffered: the goroutine that delivers the response must never block on a
+		// caller that is late, has given up, or was already served by a duplicate
+		Done: make(chan struct{}, 1),
 	}
 }
 
